@@ -18,12 +18,24 @@ func init() {
 	register(&PropertySpec{
 		ID: "C04",
 		Rules: []RuleSpec{
-			{"err-discipline", "no error returned by a function of the module is discarded (called as a statement or assigned to _) in the interop layer and the natives, except at the tabled sites whose reason is recorded: a dropped error is a dropped check or a lost write", func(c *Ctx) { ruleErrDiscipline(c, "pkg/core/interop", "pkg/core/interop/contract", "pkg/core/interop/storage", "pkg/core/native") }},
-			{"absent-is-nil", "a lookup that returns nil for a missing key and may return a stored empty value (dao.GetStorageItem, BoltDB bucket Get) is never tested for absence by length", func(c *Ctx) { ruleAbsentIsNil(c, "pkg/core/interop", "pkg/core/interop/contract", "pkg/core/interop/storage", "pkg/core/native") }},
-			{"unsigned-window", "an ordering comparison one operand of which is the difference of two non-constant unsigned values (a height minus a window) is made only where the function tests the order of those two values: otherwise the difference wraps around and \"older than the retained window\" holds for every height of a short chain", func(c *Ctx) { ruleUnsignedWindow(c, "pkg/core/interop", "pkg/core/interop/contract", "pkg/core/interop/storage", "pkg/core/native") }},
-			{"loop-memo", "a local initialised once inside a loop (if v == nil { v = ... }) and reused by later iterations is not derived from a variable the loop body changes between iterations (a key buffer rewritten per element, a cursor): later iterations would reuse what the first one saw", func(c *Ctx) { ruleLoopMemo(c, "pkg/core/interop", "pkg/core/interop/contract", "pkg/core/interop/storage", "pkg/core/native") }},
-			{"enum-switch", "every switch over a module enumeration (named integer type with at least three constants) has a default clause or names every kind: no kind falls through a default-less switch silently", func(c *Ctx) { ruleEnumSwitch(c, "pkg/core/interop", "pkg/core/interop/contract", "pkg/core/interop/storage", "pkg/core/native") }},
-			{"loop-accumulator", "a boolean that summarises a loop (some element needs X / all elements satisfy Y) and is read after it is accumulated monotonically - set to a constant, combined with its previous value, assigned under a test of itself, or followed by leaving the loop - never overwritten by the value computed for the current element only", func(c *Ctx) { ruleLoopAccumulator(c, "pkg/core/interop", "pkg/core/interop/contract", "pkg/core/interop/storage", "pkg/core/native") }},
+			{"err-discipline", "no error returned by a function of the module is discarded (called as a statement or assigned to _) in the interop layer and the natives, except at the tabled sites whose reason is recorded: a dropped error is a dropped check or a lost write", func(c *Ctx) {
+				ruleErrDiscipline(c, "pkg/core/interop", "pkg/core/interop/contract", "pkg/core/interop/storage", "pkg/core/native")
+			}},
+			{"absent-is-nil", "a lookup that returns nil for a missing key and may return a stored empty value (dao.GetStorageItem, BoltDB bucket Get) is never tested for absence by length", func(c *Ctx) {
+				ruleAbsentIsNil(c, "pkg/core/interop", "pkg/core/interop/contract", "pkg/core/interop/storage", "pkg/core/native")
+			}},
+			{"unsigned-window", "an ordering comparison one operand of which is the difference of two non-constant unsigned values (a height minus a window) is made only where the function tests the order of those two values: otherwise the difference wraps around and \"older than the retained window\" holds for every height of a short chain", func(c *Ctx) {
+				ruleUnsignedWindow(c, "pkg/core/interop", "pkg/core/interop/contract", "pkg/core/interop/storage", "pkg/core/native")
+			}},
+			{"loop-memo", "a local initialised once inside a loop (if v == nil { v = ... }) and reused by later iterations is not derived from a variable the loop body changes between iterations (a key buffer rewritten per element, a cursor): later iterations would reuse what the first one saw", func(c *Ctx) {
+				ruleLoopMemo(c, "pkg/core/interop", "pkg/core/interop/contract", "pkg/core/interop/storage", "pkg/core/native")
+			}},
+			{"enum-switch", "every switch over a module enumeration (named integer type with at least three constants) has a default clause or names every kind: no kind falls through a default-less switch silently", func(c *Ctx) {
+				ruleEnumSwitch(c, "pkg/core/interop", "pkg/core/interop/contract", "pkg/core/interop/storage", "pkg/core/native")
+			}},
+			{"loop-accumulator", "a boolean that summarises a loop (some element needs X / all elements satisfy Y) and is read after it is accumulated monotonically - set to a constant, combined with its previous value, assigned under a test of itself, or followed by leaving the loop - never overwritten by the value computed for the current element only", func(c *Ctx) {
+				ruleLoopAccumulator(c, "pkg/core/interop", "pkg/core/interop/contract", "pkg/core/interop/storage", "pkg/core/native")
+			}},
 			{"tx-commit-guard", "the per-transaction DAO layer is persisted only on the non-fault branch, it is the private layer of a context created for that transaction, and OnPersist/PostPersist persist only after a successful Exec", ruleTxCommitGuard},
 			{"unload-rollback", "the unload callback of a wrapped call persists only on commit, cuts notifications back and restores the base DAO layer on every exit; baselines are captured before the callee is loaded; the VM passes commit = no uncaught exception; ContractHasTryBlock scans every handler of every frame", ruleUnloadRollback},
 			{"exec-confinement", "in the execution closure no store targets a package-level variable or a native contract object: everything an execution writes lives in a layer that is dropped on FAULT / caught exception", ruleExecConfinement},
@@ -119,6 +131,7 @@ func init() {
 			{"loop-accumulator", "a boolean that summarises a loop (some element needs X / all elements satisfy Y) and is read after it is accumulated monotonically - set to a constant, combined with its previous value, assigned under a test of itself, or followed by leaving the loop - never overwritten by the value computed for the current element only", func(c *Ctx) { ruleLoopAccumulator(c, "pkg/vm", "pkg/vm/stackitem") }},
 			{"opcode-tables", "every Opcode constant is valid in the decoder table, dispatched by vm.execute (arm or PUSHINT range test, faulting default), priced in fee.coefficients, and operand usage agrees between decoder and dispatcher", ruleOpcodeTables},
 			{"bigint-ctor", "conversions to *stackitem.BigInteger exist only in package stackitem, each after CheckIntegerSize or from a <=64-bit source (every integer result passes the 256-bit range check)", ruleBigintCtor},
+			{"byte-moves", "bytes are moved between buffers that may be the same stack item only by the builtin copy (overlap-safe), never by an element loop", ruleByteMoves},
 			{"operand-immutable", "a big.Int obtained from a stack item is never the receiver of a big.Int mutator in pkg/vm", ruleOperandImmutable},
 			{"map-index-comaintenance", "every function that re-shapes the element slice of a stackitem.Map updates its key index too", ruleMapIndex},
 		},
@@ -127,12 +140,24 @@ func init() {
 	register(&PropertySpec{
 		ID: "C16",
 		Rules: []RuleSpec{
-			{"err-discipline", "no error returned by a function of the module is discarded (called as a statement or assigned to _) in manifests and contract calls, except at the tabled sites whose reason is recorded: a dropped error is a dropped check or a lost write", func(c *Ctx) { ruleErrDiscipline(c, "pkg/smartcontract/manifest", "pkg/core/interop/contract", "pkg/core/interop") }},
-			{"absent-is-nil", "a lookup that returns nil for a missing key and may return a stored empty value (dao.GetStorageItem, BoltDB bucket Get) is never tested for absence by length", func(c *Ctx) { ruleAbsentIsNil(c, "pkg/smartcontract/manifest", "pkg/core/interop/contract", "pkg/core/interop") }},
-			{"unsigned-window", "an ordering comparison one operand of which is the difference of two non-constant unsigned values (a height minus a window) is made only where the function tests the order of those two values: otherwise the difference wraps around and \"older than the retained window\" holds for every height of a short chain", func(c *Ctx) { ruleUnsignedWindow(c, "pkg/smartcontract/manifest", "pkg/core/interop/contract", "pkg/core/interop") }},
-			{"loop-memo", "a local initialised once inside a loop (if v == nil { v = ... }) and reused by later iterations is not derived from a variable the loop body changes between iterations (a key buffer rewritten per element, a cursor): later iterations would reuse what the first one saw", func(c *Ctx) { ruleLoopMemo(c, "pkg/smartcontract/manifest", "pkg/core/interop/contract", "pkg/core/interop") }},
-			{"enum-switch", "every switch over a module enumeration (named integer type with at least three constants) has a default clause or names every kind: no kind falls through a default-less switch silently", func(c *Ctx) { ruleEnumSwitch(c, "pkg/smartcontract/manifest", "pkg/core/interop/contract", "pkg/core/interop") }},
-			{"loop-accumulator", "a boolean that summarises a loop (some element needs X / all elements satisfy Y) and is read after it is accumulated monotonically - set to a constant, combined with its previous value, assigned under a test of itself, or followed by leaving the loop - never overwritten by the value computed for the current element only", func(c *Ctx) { ruleLoopAccumulator(c, "pkg/smartcontract/manifest", "pkg/core/interop/contract", "pkg/core/interop") }},
+			{"err-discipline", "no error returned by a function of the module is discarded (called as a statement or assigned to _) in manifests and contract calls, except at the tabled sites whose reason is recorded: a dropped error is a dropped check or a lost write", func(c *Ctx) {
+				ruleErrDiscipline(c, "pkg/smartcontract/manifest", "pkg/core/interop/contract", "pkg/core/interop")
+			}},
+			{"absent-is-nil", "a lookup that returns nil for a missing key and may return a stored empty value (dao.GetStorageItem, BoltDB bucket Get) is never tested for absence by length", func(c *Ctx) {
+				ruleAbsentIsNil(c, "pkg/smartcontract/manifest", "pkg/core/interop/contract", "pkg/core/interop")
+			}},
+			{"unsigned-window", "an ordering comparison one operand of which is the difference of two non-constant unsigned values (a height minus a window) is made only where the function tests the order of those two values: otherwise the difference wraps around and \"older than the retained window\" holds for every height of a short chain", func(c *Ctx) {
+				ruleUnsignedWindow(c, "pkg/smartcontract/manifest", "pkg/core/interop/contract", "pkg/core/interop")
+			}},
+			{"loop-memo", "a local initialised once inside a loop (if v == nil { v = ... }) and reused by later iterations is not derived from a variable the loop body changes between iterations (a key buffer rewritten per element, a cursor): later iterations would reuse what the first one saw", func(c *Ctx) {
+				ruleLoopMemo(c, "pkg/smartcontract/manifest", "pkg/core/interop/contract", "pkg/core/interop")
+			}},
+			{"enum-switch", "every switch over a module enumeration (named integer type with at least three constants) has a default clause or names every kind: no kind falls through a default-less switch silently", func(c *Ctx) {
+				ruleEnumSwitch(c, "pkg/smartcontract/manifest", "pkg/core/interop/contract", "pkg/core/interop")
+			}},
+			{"loop-accumulator", "a boolean that summarises a loop (some element needs X / all elements satisfy Y) and is read after it is accumulated monotonically - set to a constant, combined with its previous value, assigned under a test of itself, or followed by leaving the loop - never overwritten by the value computed for the current element only", func(c *Ctx) {
+				ruleLoopAccumulator(c, "pkg/smartcontract/manifest", "pkg/core/interop/contract", "pkg/core/interop")
+			}},
 			{"flags-effects", "for every system call and native-method registration the effects of the handler over the module-restricted call graph (contract-storage write, notification, script load) are covered by the declared required flags (legacy superseded registrations and the payment callback tabled)", ruleFlagsEffects},
 			{"native-flag-check", "native.Call and Context.SyscallHandler invoke the handler only behind the Has(RequiredFlags) test; the historical relaxation is confined to pre-Aspidochelone Management deploy/update", ruleFlagChecks},
 			{"call-guards", "safe methods are called with write/notify stripped, a deployed caller passes CanCall before a non-safe call, flags given to the loaders are the intersection with the current context's flags, and no other loader site exists in the execution closure", ruleCallGuards},
@@ -231,8 +256,9 @@ func init() {
 			{"loop-accumulator", "a boolean that summarises a loop (some element needs X / all elements satisfy Y) and is read after it is accumulated monotonically - set to a constant, combined with its previous value, assigned under a test of itself, or followed by leaving the loop - never overwritten by the value computed for the current element only", func(c *Ctx) { ruleLoopAccumulator(c, "pkg/core/mpt", "pkg/core/stateroot") }},
 			{"mpt-reader", "Trie methods read node records only through the mode-aware getFromStore, which reports inactive records as (nil, not found); the reference-count suffix is written and read in one format", ruleMPTReader},
 			{"store-value-immutable", "Trie methods never modify in place a slice obtained from the store (counter updates work on a copy), so a trie computed over a private layer and dropped leaves stored records untouched", ruleStoreValueImmutable},
-{"rc-loaded", "a node a Trie method loads from the store while restructuring is either handed on / embedded / returned as a whole or released with removeRef on every path that returns normally (a replaced node is never left counted)", ruleRCLoaded},
-						{"rc-writers", "node records reach the store only through the tabled count-folding writers; the GC pass deletes a record only if it is inactive and not newer than the GC height", ruleRCWriters},
+			{"rc-loaded", "a node a Trie method loads from the store while restructuring is either handed on / embedded / returned as a whole or released with removeRef on every path that returns normally (a replaced node is never left counted)", ruleRCLoaded},
+			{"rc-writers", "node records reach the store only through the tabled count-folding writers; the GC pass deletes a record only if it is inactive and not newer than the GC height", ruleRCWriters},
+			{"working-trie", "the state-root module's working trie (the one flushed to the database) is opened on every (re)initialisation, jump and reset with the module's unmasked mode over the module's own store, and a flush stamps nodes with the index of the block whose root record is written", ruleWorkingTrie},
 		},
 		NotCovered: "that counts equal occurrences (pairing per operation is not the global sum), the shared refcount map across per-block copies, Billet's restore counts",
 	})
@@ -259,6 +285,8 @@ func init() {
 			{"loop-memo", "a local initialised once inside a loop (if v == nil { v = ... }) and reused by later iterations is not derived from a variable the loop body changes between iterations (a key buffer rewritten per element, a cursor): later iterations would reuse what the first one saw", func(c *Ctx) { ruleLoopMemo(c, "pkg/consensus") }},
 			{"enum-switch", "every switch over a module enumeration (named integer type with at least three constants) has a default clause or names every kind: no kind falls through a default-less switch silently", func(c *Ctx) { ruleEnumSwitch(c, "pkg/consensus") }},
 			{"loop-accumulator", "a boolean that summarises a loop (some element needs X / all elements satisfy Y) and is read after it is accumulated monotonically - set to a constant, combined with its previous value, assigned under a test of itself, or followed by leaving the loop - never overwritten by the value computed for the current element only", func(c *Ctx) { ruleLoopAccumulator(c, "pkg/consensus") }},
+			{"codec-guards", "where the encoder and the decoder of one consensus message both guard wire operations by comparing the same field with constants (the change-view reason), the two sets of constants agree", ruleCodecGuards},
+			{"decode-context", "a decoder of a consensus message whose wire shape depends on the state-root flag hands the flag on to every nested context-dependent value it creates", ruleDecodeContext},
 			{"proposal-dominators", "verifyBlock accepts only behind the height/timestamp/size/system-fee checks and per-transaction verification; verifyRequest only behind prev-hash/version/state-root/count checks; the block witness takes commits of the current view only, in validator order; the proposed transaction set is cut after (not before) adding the transaction that overflows a limit", ruleProposalDominators},
 			{"loop-confinement", "dBFT state and the service's loop-owned fields are not touched by anything reachable from the methods other goroutines call (OnPayload, OnTransaction, Shutdown, Name)", ruleLoopConfinement},
 		},
@@ -267,14 +295,29 @@ func init() {
 	register(&PropertySpec{
 		ID: "C17",
 		Rules: []RuleSpec{
-			{"err-discipline", "no error returned by a function of the module is discarded (called as a statement or assigned to _) in the codecs, except at the tabled sites whose reason is recorded: a dropped error is a dropped check or a lost write", func(c *Ctx) { ruleErrDiscipline(c, "pkg/io", "pkg/core/transaction", "pkg/core/block", "pkg/network/payload", "pkg/vm/stackitem", "pkg/core/state") }},
-			{"absent-is-nil", "a lookup that returns nil for a missing key and may return a stored empty value (dao.GetStorageItem, BoltDB bucket Get) is never tested for absence by length", func(c *Ctx) { ruleAbsentIsNil(c, "pkg/io", "pkg/core/transaction", "pkg/core/block", "pkg/network/payload", "pkg/vm/stackitem", "pkg/core/state") }},
-			{"unsigned-window", "an ordering comparison one operand of which is the difference of two non-constant unsigned values (a height minus a window) is made only where the function tests the order of those two values: otherwise the difference wraps around and \"older than the retained window\" holds for every height of a short chain", func(c *Ctx) { ruleUnsignedWindow(c, "pkg/io", "pkg/core/transaction", "pkg/core/block", "pkg/network/payload", "pkg/vm/stackitem", "pkg/core/state") }},
-			{"loop-memo", "a local initialised once inside a loop (if v == nil { v = ... }) and reused by later iterations is not derived from a variable the loop body changes between iterations (a key buffer rewritten per element, a cursor): later iterations would reuse what the first one saw", func(c *Ctx) { ruleLoopMemo(c, "pkg/io", "pkg/core/transaction", "pkg/core/block", "pkg/network/payload", "pkg/vm/stackitem", "pkg/core/state") }},
-			{"enum-switch", "every switch over a module enumeration (named integer type with at least three constants) has a default clause or names every kind: no kind falls through a default-less switch silently", func(c *Ctx) { ruleEnumSwitch(c, "pkg/io", "pkg/core/transaction", "pkg/core/block", "pkg/network/payload", "pkg/vm/stackitem", "pkg/core/state") }},
-			{"loop-accumulator", "a boolean that summarises a loop (some element needs X / all elements satisfy Y) and is read after it is accumulated monotonically - set to a constant, combined with its previous value, assigned under a test of itself, or followed by leaving the loop - never overwritten by the value computed for the current element only", func(c *Ctx) { ruleLoopAccumulator(c, "pkg/io", "pkg/core/transaction", "pkg/core/block", "pkg/network/payload", "pkg/vm/stackitem", "pkg/core/state") }},
+			{"err-discipline", "no error returned by a function of the module is discarded (called as a statement or assigned to _) in the codecs, except at the tabled sites whose reason is recorded: a dropped error is a dropped check or a lost write", func(c *Ctx) {
+				ruleErrDiscipline(c, "pkg/io", "pkg/core/transaction", "pkg/core/block", "pkg/network/payload", "pkg/vm/stackitem", "pkg/core/state")
+			}},
+			{"absent-is-nil", "a lookup that returns nil for a missing key and may return a stored empty value (dao.GetStorageItem, BoltDB bucket Get) is never tested for absence by length", func(c *Ctx) {
+				ruleAbsentIsNil(c, "pkg/io", "pkg/core/transaction", "pkg/core/block", "pkg/network/payload", "pkg/vm/stackitem", "pkg/core/state")
+			}},
+			{"unsigned-window", "an ordering comparison one operand of which is the difference of two non-constant unsigned values (a height minus a window) is made only where the function tests the order of those two values: otherwise the difference wraps around and \"older than the retained window\" holds for every height of a short chain", func(c *Ctx) {
+				ruleUnsignedWindow(c, "pkg/io", "pkg/core/transaction", "pkg/core/block", "pkg/network/payload", "pkg/vm/stackitem", "pkg/core/state")
+			}},
+			{"loop-memo", "a local initialised once inside a loop (if v == nil { v = ... }) and reused by later iterations is not derived from a variable the loop body changes between iterations (a key buffer rewritten per element, a cursor): later iterations would reuse what the first one saw", func(c *Ctx) {
+				ruleLoopMemo(c, "pkg/io", "pkg/core/transaction", "pkg/core/block", "pkg/network/payload", "pkg/vm/stackitem", "pkg/core/state")
+			}},
+			{"enum-switch", "every switch over a module enumeration (named integer type with at least three constants) has a default clause or names every kind: no kind falls through a default-less switch silently", func(c *Ctx) {
+				ruleEnumSwitch(c, "pkg/io", "pkg/core/transaction", "pkg/core/block", "pkg/network/payload", "pkg/vm/stackitem", "pkg/core/state")
+			}},
+			{"loop-accumulator", "a boolean that summarises a loop (some element needs X / all elements satisfy Y) and is read after it is accumulated monotonically - set to a constant, combined with its previous value, assigned under a test of itself, or followed by leaving the loop - never overwritten by the value computed for the current element only", func(c *Ctx) {
+				ruleLoopAccumulator(c, "pkg/io", "pkg/core/transaction", "pkg/core/block", "pkg/network/payload", "pkg/vm/stackitem", "pkg/core/state")
+			}},
 			{"hash-canonical", "every cached identity (hash/size of transaction, header, extensible, notary request) is computed from the node's own encoding, or from received bytes only if the length decoder rejects non-minimal encodings", ruleHashCanonical},
 			{"codec-symmetry", "for every type with EncodeBinary and DecodeBinary the sequences of wire primitives on the writer/reader agree token by token when both are straight-line; otherwise the sets of primitive kinds agree", ruleCodecSymmetry},
+			{"codec-guards", "where the encoder and the decoder of one type both guard wire operations by comparing the same field with constants, the two sets of constants agree", ruleCodecGuards},
+			{"decode-context", "a decoder of a type whose wire shape depends on a context field (read, never assigned by its DecodeBinary: the consensus state-root flag) hands the context on to every nested value of a context-dependent type it creates", ruleDecodeContext},
+			{"compress-frame", "the destination of lz4.CompressBlock is sized by lz4.CompressBlockBound of the same source (otherwise incompressible input is silently sent as an empty body); the buffer of lz4.UncompressBlock has a bounded announced size and the produced size is compared with it", ruleCompressFrame},
 			{"bounded-alloc", "in every binary decoder a make() sized by a decoded integer is gated by an ordering comparison of that integer", ruleBoundedAlloc},
 			{"varint-agreement", "the variable-length integer writer (io.PutVarUint), the length-prefix estimator called by io.GetVarSize and the reader (ReadVarUint), folded over the source for the sixteen values around the format's borders, agree: the writer's width is the minimal one, the estimator returns the same width, the reader takes after each prefix the payload the writer puts", ruleVarintAgreement},
 			{"signed-count", "a count decoded as a 64-bit unsigned integer is compared with its limit before it is converted to a signed type, or the signed value is tested against zero: otherwise 2^64-1 becomes -1 and passes every upper-bound test (panic in make, silently empty loop, reader maximum switched off)", ruleSignedCount},
@@ -286,12 +329,22 @@ func init() {
 	register(&PropertySpec{
 		ID: "C07",
 		Rules: []RuleSpec{
-			{"err-discipline", "no error returned by a function of the module is discarded (called as a statement or assigned to _) in transaction admission (pkg/core, mempool, transaction, fee), except at the tabled sites whose reason is recorded: a dropped error is a dropped check or a lost write", func(c *Ctx) { ruleErrDiscipline(c, "pkg/core", "pkg/core/mempool", "pkg/core/transaction", "pkg/core/fee") }},
-			{"absent-is-nil", "a lookup that returns nil for a missing key and may return a stored empty value (dao.GetStorageItem, BoltDB bucket Get) is never tested for absence by length", func(c *Ctx) { ruleAbsentIsNil(c, "pkg/core", "pkg/core/mempool", "pkg/core/transaction", "pkg/core/fee") }},
-			{"unsigned-window", "an ordering comparison one operand of which is the difference of two non-constant unsigned values (a height minus a window) is made only where the function tests the order of those two values: otherwise the difference wraps around and \"older than the retained window\" holds for every height of a short chain", func(c *Ctx) { ruleUnsignedWindow(c, "pkg/core", "pkg/core/mempool", "pkg/core/transaction", "pkg/core/fee") }},
+			{"err-discipline", "no error returned by a function of the module is discarded (called as a statement or assigned to _) in transaction admission (pkg/core, mempool, transaction, fee), except at the tabled sites whose reason is recorded: a dropped error is a dropped check or a lost write", func(c *Ctx) {
+				ruleErrDiscipline(c, "pkg/core", "pkg/core/mempool", "pkg/core/transaction", "pkg/core/fee")
+			}},
+			{"absent-is-nil", "a lookup that returns nil for a missing key and may return a stored empty value (dao.GetStorageItem, BoltDB bucket Get) is never tested for absence by length", func(c *Ctx) {
+				ruleAbsentIsNil(c, "pkg/core", "pkg/core/mempool", "pkg/core/transaction", "pkg/core/fee")
+			}},
+			{"unsigned-window", "an ordering comparison one operand of which is the difference of two non-constant unsigned values (a height minus a window) is made only where the function tests the order of those two values: otherwise the difference wraps around and \"older than the retained window\" holds for every height of a short chain", func(c *Ctx) {
+				ruleUnsignedWindow(c, "pkg/core", "pkg/core/mempool", "pkg/core/transaction", "pkg/core/fee")
+			}},
 			{"loop-memo", "a local initialised once inside a loop (if v == nil { v = ... }) and reused by later iterations is not derived from a variable the loop body changes between iterations (a key buffer rewritten per element, a cursor): later iterations would reuse what the first one saw", func(c *Ctx) { ruleLoopMemo(c, "pkg/core", "pkg/core/mempool", "pkg/core/transaction", "pkg/core/fee") }},
-			{"enum-switch", "every switch over a module enumeration (named integer type with at least three constants) has a default clause or names every kind: no kind falls through a default-less switch silently", func(c *Ctx) { ruleEnumSwitch(c, "pkg/core", "pkg/core/mempool", "pkg/core/transaction", "pkg/core/fee") }},
-			{"loop-accumulator", "a boolean that summarises a loop (some element needs X / all elements satisfy Y) and is read after it is accumulated monotonically - set to a constant, combined with its previous value, assigned under a test of itself, or followed by leaving the loop - never overwritten by the value computed for the current element only", func(c *Ctx) { ruleLoopAccumulator(c, "pkg/core", "pkg/core/mempool", "pkg/core/transaction", "pkg/core/fee") }},
+			{"enum-switch", "every switch over a module enumeration (named integer type with at least three constants) has a default clause or names every kind: no kind falls through a default-less switch silently", func(c *Ctx) {
+				ruleEnumSwitch(c, "pkg/core", "pkg/core/mempool", "pkg/core/transaction", "pkg/core/fee")
+			}},
+			{"loop-accumulator", "a boolean that summarises a loop (some element needs X / all elements satisfy Y) and is read after it is accumulated monotonically - set to a constant, combined with its previous value, assigned under a test of itself, or followed by leaving the loop - never overwritten by the value computed for the current element only", func(c *Ctx) {
+				ruleLoopAccumulator(c, "pkg/core", "pkg/core/mempool", "pkg/core/transaction", "pkg/core/fee")
+			}},
 			{"attr-exhaustive", "every attribute kind has an arm in the binary decoder, the encoder and verifyTxAttributes; decoder and encoder reject unknown kinds", ruleAttrExhaustive},
 			{"hash-canonical", "a cached identity (hash/size) is computed from the node's own encoding, or from received bytes only if the length decoder rejects non-minimal encodings (the same content must be the same transaction in every accepted encoding)", ruleHashCanonical},
 			{"commit-point", "the main mempool is refreshed against the new ledger - after the block was published and the height advanced - so that a transaction expiring with the block does not stay pooled (blocks proposed from the pool are accepted by the ledger)", ruleCommitPoint},
